@@ -329,6 +329,7 @@ class FakeBLE(RF24):
     def channel(self, value: int):
         if value in BLE_FREQ:
             self._channel = value
+            self._curr_freq = BLE_FREQ.index(value)  # whitening follows the frequency
             self._reg_write(0x05, value)
 
     def available(self) -> bool:
